@@ -67,6 +67,9 @@ def _log10(x):
     return _s.div(_s.log(x), _s.LN10)
 
 
+COMPLEX_STEP_COMPONENT = [False]  # set by the harness while it runs a component whose partials are complex-step approximated
+
+
 class _Linalg:
     def __getattr__(self, name):
         real = getattr(_np.linalg, name)
@@ -85,7 +88,15 @@ class _Linalg:
         if ord not in (None, 2):
             raise UnsupportedNumpy("norm ord=%r" % (ord,))
         x = _np.asarray(x, dtype=object)
-        ss = _np.sum(x * x, axis=axis, keepdims=keepdims)
+        if COMPLEX_STEP_COMPONENT[0]:
+            # numpy's norm of a complex vector is sqrt(sum |x_i|^2): under a complex-step perturbation it is a real magnitude.
+            # Keep the |.| visible so that the complex-step model of the differentiator sees it (same value on the reals).
+            from .sym import fabs
+
+            ax = _np.vectorize(lambda v: fabs(v) if not isinstance(v, (int, float)) else abs(v), otypes=[object])(x)
+            ss = _np.sum(ax * ax, axis=axis, keepdims=keepdims)
+        else:
+            ss = _np.sum(x * x, axis=axis, keepdims=keepdims)
         return NP.sqrt(ss)
 
     @staticmethod
